@@ -5,6 +5,7 @@ package verifharness
 import (
 	"fmt"
 	"strings"
+	"sync"
 	"time"
 
 	"github.com/failsafe-go/failsafe-go"
@@ -13,7 +14,7 @@ import (
 // ---- sequential executions through policy stacks (Coq: Model/Exec.v) ----
 
 type PolD struct {
-	K string // Retry Breaker Limiter Bulkhead Timeout Fallback Cache
+	K string // Retry Breaker Limiter Bulkhead Timeout Fallback Cache Hedge
 	// Retry
 	Handle, Abort []CallD
 	MaxRetries    int64
@@ -33,6 +34,10 @@ type PolD struct {
 	// Cache
 	Key     int64
 	CacheIf []PredD
+	// Hedge (innermost policy only): max hedges, fixed delay, cancel conditions
+	Hedges int
+	HDelay int64
+	Cancel []CallD
 }
 
 func (p PolD) Gallina() string {
@@ -48,6 +53,8 @@ func (p PolD) Gallina() string {
 		return fmt.Sprintf("PBulkhead %d%%nat %d", p.Inst, p.MaxWait)
 	case "Timeout":
 		return fmt.Sprintf("PTimeout %d", p.Limit)
+	case "Hedge":
+		return fmt.Sprintf("PHedge {| hg_max := %d%%nat; hg_delay := %d; hg_cancel := build_hedge_cancel %s |}", p.Hedges, p.HDelay, callsGallina(p.Cancel, true))
 	case "Fallback":
 		k := ""
 		switch p.FBKind {
@@ -74,6 +81,7 @@ type FnStepD struct {
 	Out  OutD
 	Dur  int64
 	Coop *OutD
+	Lag  int64 // a cooperative step returns this long after its execution was cancelled
 }
 
 func (s FnStepD) Gallina() string {
@@ -81,7 +89,7 @@ func (s FnStepD) Gallina() string {
 	if s.Coop != nil {
 		co = "(Some " + s.Coop.Gallina() + ")"
 	}
-	return fmt.Sprintf("{| fs_out := %s; fs_dur := %d; fs_coop := %s |}", s.Out.Gallina(), s.Dur, co)
+	return fmt.Sprintf("{| fs_out := %s; fs_dur := %d; fs_coop := %s; fs_lag := %d |}", s.Out.Gallina(), s.Dur, co, s.Lag)
 }
 
 type ReqD struct {
@@ -179,6 +187,7 @@ func keyName(k int64) string {
 }
 
 type execLog struct {
+	mu     sync.Mutex // hedge attempts log from their own goroutines
 	t0     time.Time
 	base   int64
 	events []string
@@ -187,9 +196,11 @@ type execLog struct {
 
 func (l *execLog) now() int64 { return l.base + int64(time.Since(l.t0)) }
 
-func (l *execLog) add(kind string, pos int, attempts, retries, executions int, out string, aux int64) {
-	l.events = append(l.events, fmt.Sprintf("{| e_kind := K%s; e_pos := %d%%nat; e_attempts := %d; e_retries := %d; e_executions := %d; e_out := %s; e_aux := %d; e_time := %d |}",
-		kind, pos, attempts, retries, executions, out, aux, l.now()))
+func (l *execLog) add(kind string, pos int, attempts, retries, hedges, executions int, out string, aux int64) {
+	l.mu.Lock()
+	defer l.mu.Unlock()
+	l.events = append(l.events, fmt.Sprintf("{| e_kind := K%s; e_pos := %d%%nat; e_attempts := %d; e_retries := %d; e_hedges := %d; e_executions := %d; e_out := %s; e_aux := %d; e_time := %d |}",
+		kind, pos, attempts, retries, hedges, executions, out, aux, l.now()))
 	l.counts[kind]++
 	if len(l.events) > 5000 {
 		panic("verifharness: runaway execution (more than 5000 events)")
@@ -197,10 +208,10 @@ func (l *execLog) add(kind string, pos int, attempts, retries, executions int, o
 }
 
 func (l *execLog) attempt(kind string, pos int, e failsafe.ExecutionAttempt[int], aux int64) {
-	l.add(kind, pos, e.Attempts(), e.Retries(), e.Executions(), gOutcome(e.LastResult(), e.LastError()), aux)
+	l.add(kind, pos, e.Attempts(), e.Retries(), e.Hedges(), e.Executions(), gOutcome(e.LastResult(), e.LastError()), aux)
 }
 
 func (l *execLog) done(kind string, pos int, e failsafe.ExecutionDoneEvent[int]) {
-	l.add(kind, pos, e.Attempts(), e.Retries(), e.Executions(), gOutcome(e.Result, e.Error), 0)
+	l.add(kind, pos, e.Attempts(), e.Retries(), e.Hedges(), e.Executions(), gOutcome(e.Result, e.Error), 0)
 }
 
